@@ -1478,7 +1478,8 @@ def _idna_encode(host: str) -> str:
     try:
         return idna.encode(host, uts46=True).decode("ascii")
     except UnicodeError:
-        return host.encode("idna").decode("ascii")
+        # the IDNA 2003 codec keeps the case of ASCII labels
+        return host.encode("idna").decode("ascii").lower()
 
 
 @lru_cache(_DEFAULT_ENCODE_SIZE)
